@@ -15,7 +15,7 @@ for i in ids:
             "thorough_cmd": "./check %s --tier thorough" % i,
             "evidence_file": "/verif/evidence/%s.json" % i,
             "replay_cmd_template": "./check %s --replay {path}" % i,
-            "engine": "symx+coq",
+            "engine": ("coq model + extracted-model correspondence" if p.get("engine") == "B" else "symx+coq"),
             "level_claimed": {"category": "proof", "text": p["level_text"], "design_ref": p.get("design_ref", "DESIGN.md section 7")},
             "level_note": p["level_note"],
             "technique": p["technique"],
